@@ -155,6 +155,19 @@ def _normalize_run_space(value: Any) -> Any:
 
 
 def _compute_run_space_spec_id(run_space: Mapping[str, Any]) -> str:
+    # Hash the parsed RunSpaceV1Config (defaults applied), exactly what the
+    # runtime hashes into run_space_start.run_space_spec_id, so that `inspect`
+    # and the trace agree. Fall back to the raw block if it does not parse.
+    try:
+        from dataclasses import asdict
+
+        from semantiva.configurations.load_pipeline_from_yaml import (
+            _parse_run_space_block,
+        )
+
+        run_space = asdict(_parse_run_space_block(run_space))
+    except Exception:
+        pass
     normalized = _normalize_run_space(run_space)
     payload = json.dumps(normalized, separators=(",", ":"), ensure_ascii=False).encode(
         "utf-8"
